@@ -10,7 +10,7 @@ use std::collections::HashMap;
 
 pub const LEVEL: &str = "exploration";
 pub const EXHAUSTIVE: bool = false;
-pub const RULE: &str = "dictionary-driven: words of dictionary.json mapped to Probhat key sequences through the inverse of the layout file (one key per code point; words the layout cannot type are counted and skipped), typed key by key with EVERY prefix judged; quick: every 13th word (offset by seed), thorough: ALL words (data-exhaustive); option setting per word chosen by hash over {traditional joining, smart quote, English, ANSI}; plus generated cases with 0..2 leading / trailing punctuation characters incl. quotes and with delete-and-retype steps. Oracle per returned list: candidate 0 == composed text with the wrapping quotes curled; every other candidate that is neither a table emoji (Bengali name of the word part, or emoticon of the raw key text) nor the final raw-key item must, after un-wrapping and dropping ZWNJ, be a member of dictionary.json and start with the typed word stripped of punctuation and ZWNJ; own Levenshtein distance to the typed word non-decreasing over those candidates in list order; at most 9 candidates; no text twice; English on, ANSI off and no backspace used => last candidate == the ASCII characters of the value-bearing keys pressed (own model) unless that equals the composed text. Non-trivial: the list has >= 3 dictionary completions; distinct by (options, composed text).";
+pub const RULE: &str = "dictionary-driven: words of dictionary.json mapped to Probhat key sequences through the inverse of the layout file (one key per code point; words the layout cannot type are counted and skipped), typed key by key with EVERY prefix judged; quick: every 13th word (offset by seed), thorough: ALL words (data-exhaustive); option setting per word chosen by hash over {traditional joining, smart quote, English, ANSI}; plus generated cases with 0..2 leading / trailing punctuation characters incl. quotes and with delete-and-retype steps. Oracle per returned list: candidate 0 == composed text with the wrapping quotes curled; every other candidate that is neither a table emoji (Bengali name of the word part, or emoticon of the raw key text) nor the final raw-key item must, after un-wrapping and dropping ZWNJ, be a member of dictionary.json and start with the typed word stripped of punctuation and ZWNJ; own Levenshtein distance to the typed word non-decreasing over those candidates in list order; at most 9 candidates; no text twice; English on, ANSI off and no backspace used => last candidate == the ASCII characters of the value-bearing keys pressed (own model) unless that equals the composed text. Non-trivial: the list has >= 3 dictionary completions; distinct by (options, composed text). Generated words also carry backspace bursts (1..5 backspaces after a key, typing then goes on), and a directed part types quote(s) + consonant + every sign + 1..4 backspaces + one more key under all 16 option sets (a traditionally joined sign is two code points for one key).";
 pub const ASSUMPTIONS: &[&str] = &[
     "dictionary JSON read independently; own Levenshtein over code points",
     "layout inverse derived from the layout file through the header-derived key table",
